@@ -94,21 +94,24 @@ Record outg := mkO { o_lock : option nat; o_cl : bool; o_buf : list item; o_wire
 Record ing := mkI { i_cl : bool; i_lk : bool; i_q : list pev; i_armed : bool; i_rdexp : bool;
                     i_done : bool; i_err : err; i_dlsup : bool }.
 
+(* what an actor is, as far as closing goes (ghost: never read by [exec]) *)
+Inductive role := RPlain | RCloser | RServe.
+
 Record actor := mkA { a_code : list op; a_e : err; a_res : option err; a_chk : bool;
-                      a_cause : cause; a_closer : bool }.
+                      a_cause : cause; a_role : role }.
 
 Record state := mkS { s_o : outg; s_i : ing; s_a : nat -> actor }.
 
 Definition set_code (a : actor) (k : list op) : actor :=
-  mkA k (a_e a) (a_res a) (a_chk a) (a_cause a) (a_closer a).
+  mkA k (a_e a) (a_res a) (a_chk a) (a_cause a) (a_role a).
 Definition set_e (a : actor) (e : err) : actor :=
-  mkA (a_code a) e (a_res a) (a_chk a) (a_cause a) (a_closer a).
+  mkA (a_code a) e (a_res a) (a_chk a) (a_cause a) (a_role a).
 Definition set_chk (a : actor) (c : bool) : actor :=
-  mkA (a_code a) (a_e a) (a_res a) c (a_cause a) (a_closer a).
+  mkA (a_code a) (a_e a) (a_res a) c (a_cause a) (a_role a).
 Definition set_res (a : actor) (r : option err) : actor :=
-  mkA (a_code a) (a_e a) r (a_chk a) (a_cause a) (a_closer a).
+  mkA (a_code a) (a_e a) r (a_chk a) (a_cause a) (a_role a).
 Definition set_exit (a : actor) (k : list op) (e : err) (c : cause) : actor :=
-  mkA k e (a_res a) (a_chk a) c (a_closer a).
+  mkA k e (a_res a) (a_chk a) c (a_role a).
 (* the first error wins (a user of the token writer keeps the first error) *)
 Definition first_err (a : actor) (e : err) : actor :=
   match a_e a with ENil => set_e a e | _ => a end.
@@ -280,11 +283,12 @@ Definition prog_of (k : kind) : list op :=
   | KProbe => [OProbe; ORet]
   end.
 
-Definition is_closer (k : kind) : bool := match k with KClose | KServe => true | _ => false end.
+Definition role_of (k : kind) : role :=
+  match k with KClose => RCloser | KServe => RServe | _ => RPlain end.
 
-Definition idle : actor := mkA [] ENil None false CNone false.
+Definition idle : actor := mkA [] ENil None false CNone RPlain.
 
-Definition actor_of (k : kind) : actor := mkA (prog_of k) ENil None false CNone (is_closer k).
+Definition actor_of (k : kind) : actor := mkA (prog_of k) ENil None false CNone (role_of k).
 
 Definition init (dlsup : bool) (ks : list kind) : state :=
   mkS (mkO None false [] [])
@@ -307,7 +311,9 @@ Fixpoint safe (h c : bool) (code : list op) : bool :=
   | [] => negb h
   | o :: k =>
       match o with
-      | OYield _ | OSetDeadline | OFire | OPeer _ | OAcqIn | ORelIn | OCloseInput | OProbe => safe h c k
+      | OYield _ | OSetDeadline | OPeer _ | ORelIn => safe h c k
+      (* operations that can block are not performed while holding the output lock *)
+      | OFire | OAcqIn | OCloseInput | OProbe => negb h && safe h c k
       | OLock => negb h && safe true false k
       | OUnlock => h && safe false false k
       | OChk => h && has_unlock k && safe true true k
